@@ -18,7 +18,8 @@ RULE = ("stratified + seeded random (configuration, sample) pairs; non-trivial =
         "(kind, configuration, sample)")
 REQUIRED = [f"ref_compared:{nn.label({'test': a, 'estim': b, 'bet': c})}" for a, b, c in nn.COMBOS] + \
            ["equiv_compared", "inverse_checked", "entries_eq", "entries_boundary", "stratum:nondyadic_boundary_neighbourhood", "stratum:early_wins_then_zeros_to_census", "stratum:long_sample",
-            "stratum:exact_hit_then_zero_then_nondyadic", "inverse_checked_with_null_mean_outside_0_u"]
+            "stratum:exact_hit_then_zero_then_nondyadic", "inverse_checked_with_null_mean_outside_0_u",
+            "ref_compared:finite_N_given_as_a_numpy_integer"]
 ASSUMPTIONS = ["eta_j and lambda_j are taken from the real estimator/bet (their ranges are C13's business)",
                "boundary-index conventions of DESIGN.md C12: at the index where the total first exceeds N t either the "
                "product value or 0 is accepted; where mu_j is within the code's tolerances of 0 or u either the product "
@@ -129,6 +130,8 @@ def run_case(case, rec):
             return
         exp = nnref.ref_history(cfg, x, etas=etas, lams=lams)
         rec.count(f"ref_compared:{lab}")
+        if cfg.get("N_repr"):
+            rec.count("ref_compared:finite_N_given_as_a_numpy_integer")
         for e in exp:
             rec.count("entries_eq" if e[0] == "eq" else "entries_boundary" if e[0] == "any" else "entries_skipped")
         bad = nnref.compare(h, exp)
